@@ -188,6 +188,9 @@ def analyse_file(rel, raw):
         call_end = match_close(src, m.end() - 1, "(", ")")
         s0 = stmt_start(src, m.start(), fs)
         head = src[s0:m.start()]
+        # a closure parameter of the same name shadows the map inside the closure (`.map_or(0, |in_channels| in_channels.len())`)
+        if re.search(r"\|[^|;{}]*\b" + re.escape(mapn.split(".")[-1]) + r"\b[^|;{}]*\|\s*$", head):
+            continue
         region = None
         shape = None
         if meth in GUARDING:
@@ -225,7 +228,7 @@ def analyse_file(rel, raw):
                 region = (m.start(), call_end + 1)
                 shape = "S4"
                 text = src[region[0]:region[1]]
-                sites.append((rel, fname, line, mapn, meth, shape, False))
+                sites.append((rel, fname, line, mapn, meth, shape, False, region))
                 bad.append("%s:%d fn %s: %s.%s may report a present entry as unavailable while its shard is locked" % (rel, line, fname, mapn, meth))
                 continue
             if meth not in ("remove", "remove_if", "remove_if_mut", "contains_key", "len", "insert", "is_empty", "retain", "alter", "clear"):
@@ -235,7 +238,7 @@ def analyse_file(rel, raw):
             shape = "S4"
         text = src[region[0]:region[1]]
         has_await = re.search(r"\.\s*await\b", text) is not None
-        sites.append((rel, fname, line, mapn, meth, shape, has_await))
+        sites.append((rel, fname, line, mapn, meth, shape, has_await, region))
         if meth.startswith("try_"):
             # a non-blocking lookup reports a shard that is merely being written as Locked: treating that like Absent
             # makes a present entry disappear for an instant (a delivery, a membership check silently skipped)
@@ -302,6 +305,82 @@ def analyse_chan_locks(rel, raw):
     return sites, nested, writers
 
 
+LOCK_ID = {"channels": 0, "in_channels": 1, "connections": 2, "self.connections": 2}
+
+
+def handler_programs(repo):
+    """the lock protocol of every function of the channel manager and of the C2S router, as a program of Model/Locks.v:
+    the events of the function body in lexical order — a map access opens a synchronous section for the lexical region in
+    which its guard is alive, a per-channel lock is taken (read / write) and given back at the end of its guard's region,
+    every other `.await` is a point where the task may park; calls of other analysed functions are inlined (one level is
+    all the code needs; deeper nesting is a shape error).  Branches are laid out one after the other."""
+    progs = {}
+    calls = {}
+    order = []
+    for rel in FILES:
+        with open(os.path.join(repo, rel), encoding="utf-8") as f:
+            raw = f.read()
+        src = blank(raw)
+        fns = functions(src)
+        msites, _ = analyse_file(rel, raw)
+        csites = analyse_chan_locks(rel, raw)[0] if rel == CHAN_FILE else []
+        for (name, fs, fe) in fns:
+            ev = []
+            for st in msites:
+                if st[1] != name:
+                    continue
+                a, b = st[7]
+                if not (fs < a < fe):
+                    continue
+                lid = LOCK_ID[st[3]]
+                ev.append((a, 0, "SyncAcq %d" % lid))
+                ev.append((b, 3, "SyncRel %d" % lid))
+            lock_await = set()
+            for c in csites:
+                if c["fn"] != name:
+                    continue
+                a, b = c["region"]
+                ev.append((c["start"], 1, "AsyncAcqW c" if c["mode"] == "write" else "AsyncAcqR c"))
+                ev.append((b, 2, "AsyncRel c"))
+                lock_await.add(a)          # region starts right after `.await`
+            body = src[fs:fe]
+            for m in re.finditer(r"\.\s*await\b", body):
+                pos = fs + m.end()
+                if pos in lock_await:
+                    continue
+                head = src[max(fs, pos - 80):pos]
+                if re.search(r"self\s*\.\s*0\s*\.\s*read\s*\(\s*\)\s*\.\s*await$", head):
+                    continue               # the manager-wide lock, only ever read-locked (chan_lock_nested lists any writer)
+                cm = re.search(r"(?:self\s*\.|Self\s*::)\s*(\w+)\s*\([^;]*$", src[stmt_start(src, pos - 6, fs):pos - 6], flags=re.S)
+                if cm and any(f[0] == cm.group(1) for f in fns):
+                    ev.append((pos, 1, "CALL " + cm.group(1)))
+                else:
+                    ev.append((pos, 1, "AwaitMod"))
+            if not any(e[2].startswith(("SyncAcq", "AsyncAcq")) for e in ev):
+                continue
+            ev.sort(key=lambda e: (e[0], e[1]))
+            progs[name] = [e[2] for e in ev]
+            order.append(name)
+    out = {}
+    for name in order:
+        p = []
+        for a in progs[name]:
+            if a.startswith("CALL "):
+                callee = a[5:]
+                if callee in progs:
+                    if any(x.startswith("CALL ") and x[5:] in progs for x in progs[callee]):
+                        raise Shape("lock programs: nested calls between lock-taking functions (%s -> %s -> ..)" % (name, callee))
+                    p += [x if not x.startswith("CALL ") else "AwaitMod" for x in progs[callee]]
+                else:
+                    p.append("AwaitMod")
+            else:
+                p.append(a)
+        out[name] = p
+    if len(out) < 8:
+        raise Shape("lock programs: only %d lock-taking functions found" % len(out))
+    return order, out
+
+
 def analyse(repo):
     sites, bad = [], []
     for rel in FILES:
@@ -340,6 +419,29 @@ def gen(repo):
             "   manager-wide lock *)",
             "Definition chan_lock_nested : list string := [" + ";\n  ".join(q(b) for b in nested + writers) + "].", ""]
     return "\n".join(out)
+
+
+def gen_programs(repo):
+    order, progs = handler_programs(repo)
+    ident = lambda n: "src_" + re.sub(r"\W", "_", n)
+    def act(a):
+        k, _, arg = a.partition(" ")
+        return "%s %s" % (k, arg) if arg else k
+    out = ["(* GENERATED by translator/locklint.py from /repo/%s — do not edit *)" % ", ".join(FILES),
+           "From Coq Require Import List String.", "From NW Require Import Base.Bytes Model.Locks.", "Import ListNotations.", "Local Open Scope string_scope.", "",
+           "(* the lock protocol of every lock-taking function of the channel manager and of the C2S router, in lexical order:",
+           "   map accesses (0 channels, 1 in_channels, 2 connections) as synchronous sections, the per-channel lock [c], and every other",
+           "   await as a point where the task may park *)"]
+    for n in order:
+        out.append("Definition %s (c : nat) : program := [%s]." % (ident(n), "; ".join(act(a) for a in progs[n])))
+    out.append("Definition src_programs (c : nat) : list (string * program) := [%s]." % "; ".join('("%s", %s c)' % (n, ident(n)) for n in order))
+    return "\n".join(out) + "\n"
+
+
+def programs_fallback(msg):
+    return "\n".join(["(* GENERATED by translator/locklint.py — TRANSLATOR-SHAPE-ERROR: %s *)" % str(msg).replace("*)", "* )").replace("(*", "( *"),
+                      "From Coq Require Import List String.", "From NW Require Import Base.Bytes Model.Locks.", "Import ListNotations.", "Local Open Scope string_scope.",
+                      "Definition src_programs (c : nat) : list (string * program) := [(\"TRANSLATOR-SHAPE-ERROR\", [SyncAcq 0])].", ""])
 
 
 if __name__ == "__main__":
